@@ -14,8 +14,10 @@ import (
 	"github.com/ipld/go-ipld-prime/zzverif/typed"
 )
 
-var bindTypes = []string{"Plain", "OptNull", "Tuple", "Join", "Pairs", "MapSI", "ListS", "UnionK", "UnionKinded", "UnionSP", "EnumS", "EnumI", "Outer"}
-var genTypes = []string{"Plain", "OptNull", "Tuple", "Join", "MapSI", "ListS", "UnionK", "UnionKinded", "UnionSP", "Outer"}
+var bindTypes = []string{"Plain", "OptNull", "Tuple", "Join", "Pairs", "MapSI", "ListS", "UnionK", "UnionKinded", "UnionSP", "EnumS", "EnumI",
+	"MapSU", "ListU", "MapSP", "ListT", "MapSN", "ListN", "OptComp", "OptMore", "EnumX", "OptOne", "ListOO", "MapOO", "Outer"}
+var genTypes = []string{"Plain", "OptNull", "Tuple", "Join", "MapSI", "ListS", "UnionK", "UnionKinded", "UnionSP",
+	"MapSU", "ListU", "MapSP", "ListT", "MapSN", "ListN", "OptComp", "OptMore", "OptOne", "ListOO", "MapOO", "Outer"}
 
 func hasDup(v *refval.V) bool {
 	if v.K == refval.Map {
@@ -36,12 +38,15 @@ func hasDup(v *refval.V) bool {
 }
 
 // conform: feed a (possibly mutated) representation-level tree to the representation builder.
-func conform(engine int, name string) {
+func conform(engine int, name string, mutate bool) {
 	t := schemas.ByName(name)
-	g := &refschema.G{}
+	g := &refschema.G{NarrowInts: true}
 	v := g.Gen(t)
 	r := refschema.Repr(t, v)
-	mutations := nd.Choose("mutations", nd.Param("MUT", 1)+1)
+	mutations := 0
+	if mutate {
+		mutations = nd.Choose("mutations", nd.Param("MUT", 1)+1)
+	}
 	for i := 0; i < mutations; i++ {
 		r = g.Mutate(r)
 	}
@@ -82,10 +87,12 @@ func conform(engine int, name string) {
 
 // HBind / HGen: the two engines.
 func HBind() {
-	conform(nd.Choose("inferred", 2), bindTypes[nd.Choose("type", nd.Param("TYPES", len(bindTypes)))])
+	ti := nd.Param("T0", 0) + nd.Choose("type", nd.Param("TYPES", len(bindTypes))-nd.Param("T0", 0))
+	conform(nd.Choose("inferred", 2), bindTypes[ti], ti < nd.Param("MUTBELOW", len(bindTypes)))
 }
 func HGen() {
-	conform(typed.Generated, genTypes[nd.Choose("type", nd.Param("TYPES", len(genTypes)))])
+	ti := nd.Param("T0", 0) + nd.Choose("type", nd.Param("TYPES", len(genTypes))-nd.Param("T0", 0))
+	conform(typed.Generated, genTypes[ti], ti < nd.Param("MUTBELOW", len(genTypes)))
 }
 
 var _ = datamodel.Kind_Map
